@@ -222,6 +222,27 @@ func c07Key(rp c07Rep) string {
 	return string(b)
 }
 
+// class predicate of known finding C07-crlf-comment-attachment: the file has CRLF line endings and the inserted comment is
+// a line of its own directly below a flow-style rule line (`  - {...}`): yaml.v3 then makes it the foot comment of that
+// flow mapping, so it acts on the rule above
+func c07CRLFAfterFlow(t c07Trial) bool {
+	if !t.CRLF || t.Inserted < 2 {
+		return false
+	}
+	lines := strings.Split(strings.ReplaceAll(t.After, "\r\n", "\n"), "\n")
+	if t.Inserted-2 >= len(lines) {
+		return false
+	}
+	for k := t.Inserted - 2; k >= 0; k-- { // skip comment lines between the flow rule and the inserted line
+		l := strings.TrimSpace(lines[k])
+		if strings.HasPrefix(l, "#") {
+			continue
+		}
+		return strings.HasPrefix(l, "- {")
+	}
+	return false
+}
+
 func c07BlankOwner(key string) string {
 	var rp c07Rep
 	if json.Unmarshal([]byte(key), &rp) != nil {
@@ -466,8 +487,13 @@ func c07Oracle(r *rand.Rand, rep *runReport, nfiles int) {
 			continue
 		}
 		if strings.Join(t.Got, "\n") != strings.Join(t.Expected, "\n") {
-			rep.fail(fmt.Sprintf("oracle-%d", i), fmt.Sprintf("C07: inserting `%s` (%s, %s) did not remove exactly the targeted problems: expected %d reports, got %d",
-				t.Comment, t.Form, t.Placement, len(t.Expected), len(t.Got)), t)
+			what := fmt.Sprintf("C07: inserting `%s` (%s, %s) did not remove exactly the targeted problems: expected %d reports, got %d",
+				t.Comment, t.Form, t.Placement, len(t.Expected), len(t.Got))
+			if c07CRLFAfterFlow(t) {
+				rep.failKnown(fmt.Sprintf("oracle-%d", i), what+" [CRLF file, comment line directly below a flow-style rule]", t, "C07-crlf-comment-attachment")
+			} else {
+				rep.fail(fmt.Sprintf("oracle-%d", i), what, t)
+			}
 		} else if i%37 == 0 {
 			rep.sample(map[string]any{"comment": t.Comment, "placement": t.Placement, "before": len(t.Before), "after": len(t.Got)})
 		}
